@@ -549,4 +549,116 @@ def exRun : EP :=
 example : (exRun.done.map (fun h => (h.uid, h.closer, h.closed, h.received))) = [(0, 1, 1, [7]), (1, 1, 1, [7])] ∧
     exRun.errorReplies = 1 ∧ exRun.pending.length = 0 := by decide
 
+/-! ### after shutdown nothing is registered any more -/
+
+def AllNone (sl : List (Option HS)) : Prop := ∀ x ∈ sl, x = none
+
+theorem allNone_map (sl : List (Option HS)) : AllNone (sl.map (fun _ => none)) := by
+  intro x hx; obtain ⟨_, _, rfl⟩ := List.mem_map.mp hx; rfl
+
+theorem takeSlot_allNone (sl : List (Option HS)) (h : AllNone sl) (id : Nat) : takeSlot sl id = none := by
+  induction sl generalizing id with
+  | nil => rfl
+  | cons x r ih =>
+    have hx : x = none := h x (by simp)
+    subst hx
+    cases id with
+    | zero => rfl
+    | succ i => simp [takeSlot, ih (fun y hy => h y (by simp [hy])) i]
+
+theorem dispatchLoop_allNone (m : Msg) (sl : List (Option HS)) (h : AllNone sl) (errs : Nat) (res : DispatchResult) :
+    AllNone (dispatchLoop m sl errs res).1 ∧ (dispatchLoop m sl errs res).2.1 = [] := by
+  induction sl generalizing errs res with
+  | nil => simp [dispatchLoop, AllNone]
+  | cons x r ih =>
+    have hx : x = none := h x (by simp)
+    subst hx
+    have := ih (fun y hy => h y (by simp [hy])) errs res
+    simp only [dispatchLoop]
+    refine ⟨?_, this.2⟩
+    intro y hy
+    simp only [List.mem_cons] at hy
+    rcases hy with rfl | hy
+    · rfl
+    · exact this.1 y hy
+
+theorem drain_allNone (e : EP) (h : AllNone e.slots) (id k : Nat) : AllNone (drain e id k).slots := by
+  intro x hx
+  simp only [drain, List.mem_mapIdx] at hx
+  obtain ⟨i, hi, rfl⟩ := hx
+  have : e.slots[i] = none := h _ (List.getElem_mem hi)
+  split <;> simp [this]
+
+/-- the state of an endpoint after `closeWith`: closed, and no handler in the table -/
+def Shut (e : EP) : Prop := e.closed = true ∧ AllNone e.slots
+
+theorem shut_closeAll (e : EP) : Shut (closeAll e) := ⟨rfl, allNone_map _⟩
+
+theorem shut_step (e : EP) (h : Shut e) (a : Endpoint.Action) : Shut (step e a) := by
+  obtain ⟨hc, hn⟩ := h
+  cases a with
+  | make s => simp only [step, make, hc, if_true]; exact ⟨rfl, hn⟩
+  | remove id => simp only [step, remove, takeSlot_allNone e.slots hn id]; exact ⟨hc, hn⟩
+  | dispatch m =>
+    simp only [step, dispatch]
+    split
+    · exact ⟨hc, hn⟩
+    · have := dispatchLoop_allNone m e.slots hn e.errorReplies .noMatch
+      cases hd : dispatchLoop m e.slots e.errorReplies .noMatch with
+      | mk sl rest =>
+        obtain ⟨cl, errs', res'⟩ := rest
+        rw [hd] at this
+        exact ⟨hc, this.1⟩
+  | drain id k => exact ⟨hc, drain_allNone e hn id k⟩
+  | closeAll => exact shut_closeAll e
+  | async uid =>
+    simp only [step, asyncClose]
+    split <;> exact ⟨hc, hn⟩
+
+theorem shut_run (e : EP) (h : Shut e) (as : List Endpoint.Action) : Shut (run e as) := by
+  induction as generalizing e with
+  | nil => exact h
+  | cons a r ih => exact ih (step e a) (shut_step e h a)
+
+/-- **Once the connection is shut, no identifier names a handler again**: whatever is registered,
+    removed, dispatched or closed afterwards, `RemoveHandler` of any identifier reports an error
+    and runs nobody's close callback — in particular not from inside the critical section of
+    another removal.  (Before the repair 136111d a handler registered after the shutdown took the
+    first free slot, and the pending closer of the handler that had held that slot removed it:
+    `stale_identifier_before_repair`.) -/
+theorem after_shutdown_remove_fails (e : EP) (as : List Endpoint.Action) (id : Nat) :
+    (remove (run (closeAll e) as) id).2 = false ∧ (remove (run (closeAll e) as) id).1 = run (closeAll e) as := by
+  have := shut_run (closeAll e) (shut_closeAll e) as
+  simp only [remove, takeSlot_allNone _ this.2 id]
+  exact ⟨trivial, trivial⟩
+
+/-- a handler registered after the shutdown is closed (exactly once) as soon as its scheduled close runs -/
+theorem registered_after_shutdown_is_closed (e : EP) (hi : Inv e) (hs : Shut e) (s : Spec) :
+    (asyncClose (make e s).1 e.next).done = e.done ++ [({ uid := e.next, spec := s } : HS).close] ∧
+    Closed ({ uid := e.next, spec := s } : HS).close := by
+  have h0 := hi.once e.next
+  simp only [Nat.lt_irrefl, if_false] at h0
+  have hp : occ e.next e.pending = 0 := by omega
+  have hnone : e.pending.find? (fun h => h.uid == e.next) = none := by
+    apply List.find?_eq_none.mpr
+    intro h hh hq
+    have := List.countP_eq_zero.mp hp h hh
+    exact this hq
+  refine ⟨?_, close_closed _ (by simp [Open])⟩
+  simp only [make, hs.1, if_true, asyncClose]
+  simp [List.find?_append, hnone]
+
+/-- the table as it was before the repair: registration ignores the shutdown -/
+def makeOld (e : EP) (s : Spec) : EP × Nat :=
+  let (sl, i) := place { uid := e.next, spec := s } e.slots 0
+  ({ e with slots := sl, next := e.next + 1 }, i)
+
+/-- … and the identifier of a handler of the old connection named the new handler: its pending
+    closer's `RemoveHandler` found it (and ran its callback inside the critical section) -/
+theorem stale_identifier_before_repair :
+    let e0 : EP := (make {} ⟨1, 0, 0, 4, false⟩).1          -- a subscription handler in slot 0
+    let e1 := closeAll e0                                     -- the connection is lost
+    let e2 := (makeOld e1 ⟨1, 0, 0, 4, false⟩).1              -- a queued request registers another one
+    (remove e2 0).2 = true ∧ (remove (make e1 ⟨1, 0, 0, 4, false⟩).1 0).2 = false := by decide
+
 end QiVerif.C17
